@@ -25,6 +25,26 @@ theorem refuses_unsigned_sign (abbr : Bool) (m : SignMsg) (sp : Bytes) (ext : Op
     (h : m.sigs = []) : ∀ t, countersignToBeSigned abbr (.sign m) sp ext ≠ .ok t := by
   intro t; simp [countersignToBeSigned, h]
 
+/-- a COSE_Sign with signer slots is unsigned as long as ONE slot holds no signature (the code's
+    own `Sign` fills all slots or none, but a caller can assemble anything) -/
+theorem refuses_unsigned_slot_sign (abbr : Bool) (m : SignMsg) (sp : Bytes) (ext : Option Bytes)
+    (s : SigV) (hs : s ∈ m.sigs) (h : blen s.sig = 0) :
+    ∀ t, countersignToBeSigned abbr (.sign m) sp ext ≠ .ok t := by
+  intro t
+  have hany : m.sigs.any (fun s => blen s.sig = 0) = true :=
+    List.any_eq_true.mpr ⟨s, hs, by simpa using h⟩
+  simp only [countersignToBeSigned]
+  by_cases he : m.sigs.isEmpty
+  · simp [he]
+  · simp [he, hany]
+
+/-- … and conversely a COSE_Sign parent is accepted only when every slot is signed -/
+theorem sign_parent_ok_all_signed (abbr : Bool) (m : SignMsg) (sp : Bytes) (ext : Option Bytes)
+    (t : Bytes) (h : countersignToBeSigned abbr (.sign m) sp ext = .ok t) :
+    m.sigs ≠ [] ∧ ∀ s ∈ m.sigs, blen s.sig ≠ 0 := by
+  refine ⟨fun he => refuses_unsigned_sign abbr m sp ext he t h, fun s hs hz => ?_⟩
+  exact refuses_unsigned_slot_sign abbr m sp ext s hs hz t h
+
 theorem refuses_unsigned_signature (abbr : Bool) (s : SigV) (sp : Bytes) (ext : Option Bytes)
     (h : blen s.sig = 0) : ∀ t, countersignToBeSigned abbr (.signature s) sp ext ≠ .ok t := by
   intro t
@@ -52,7 +72,9 @@ theorem refuses_detached_sign (abbr : Bool) (m : SignMsg) (sp : Bytes) (ext : Op
   simp only [countersignToBeSigned]
   by_cases hs : m.sigs.isEmpty
   · simp [hs]
-  · cases marshalProtected m.h <;> simp [hs, h]
+  · by_cases hu : m.sigs.any (fun s => blen s.sig = 0)
+    · simp [hs, hu]
+    · cases marshalProtected m.h <;> simp [hs, hu, h]
 
 /-- the parent's unprotected headers are not covered -/
 theorem indep_parent_unprotected (abbr : Bool) (m : Sign1Msg) (sp : Bytes) (ext : Option Bytes)
